@@ -624,6 +624,13 @@ def _split(test, pol):
                 yield from _split(v, False)
             return
     yield (test, pol)
+    if isinstance(test, ast.BoolOp):
+        # De Morgan: (A and B) false  ==  (not A or not B) true, and the other way round -- both spellings travel together
+        from .boolfold import negate, _push_not
+        alt = _push_not(negate(test))
+        ast.copy_location(alt, test)
+        ast.fix_missing_locations(alt)
+        yield (alt, not pol)
     # the complementary spelling is the same fact: (a != b, p) == (a == b, not p); likewise is / is not, in / not in
     # (ordering comparisons are NOT complemented: `not a > b` differs from `a <= b` for NaN)
     if isinstance(test, ast.Compare) and len(test.ops) == 1 and type(test.ops[0]) in _COMPLEMENT:
